@@ -26,7 +26,7 @@ REQUIRED = ["identities_checked", "assorter:plurality", "assorter:supermajority"
 ASSUMPTIONS = ["pool labelling coherent (a batch is pooled or not); add_pool_contests applied under style (documented "
                "precondition of ONEAudit)", "A_i is computed by reference assorters written from the definitions "
                "(cross-checked against the real assorters by C02 and C14)"]
-N_CASES = {"quick": 6400, "thorough": 160000}
+N_CASES = {"quick": 25600, "thorough": 204800}
 
 
 def plan(tier, seed):
